@@ -61,6 +61,10 @@ func kindsInto(b *ssa.BasicBlock) map[int64]bool {
 			}
 			if k, _, ok := kindTest(iff.Cond); ok {
 				out[k] = true
+			} else if ks, ok := kindsOfCond(iff.Cond, 0); ok {
+				for k := range ks {
+					out[k] = true
+				}
 			} else {
 				walk(p)
 			}
@@ -105,6 +109,60 @@ func kindPredicate(cond ssa.Value) map[int64]bool {
 		}
 	}
 	return out
+}
+
+// kindsOfCond: the kinds for which a boolean value built from kind tests is true: a kind test itself, or the phi go/ssa
+// makes of `k == A || k == B` used as a value (true from the edge where the earlier test held, else the last test).
+func kindsOfCond(cond ssa.Value, depth int) (map[int64]bool, bool) {
+	if depth > 4 {
+		return nil, false
+	}
+	if k, _, ok := kindTest(cond); ok {
+		return map[int64]bool{k: true}, true
+	}
+	ph, ok := resolveLocal(cond).(*ssa.Phi)
+	if !ok || !isBool(ph.Type()) {
+		return nil, false
+	}
+	out := map[int64]bool{}
+	for i, e := range ph.Edges {
+		if c, isC := e.(*ssa.Const); isC && c.Value != nil {
+			if !constant.BoolVal(c.Value) {
+				continue
+			}
+			// true on this edge: the predecessor must have branched here on a kind test (or a nested such value)
+			pred := ph.Block().Preds[i]
+			found := false
+			for hops := 0; hops < 3 && pred != nil; hops++ {
+				if iff, isIf := pred.Instrs[len(pred.Instrs)-1].(*ssa.If); isIf {
+					if ks, ok := kindsOfCond(iff.Cond, depth+1); ok {
+						for k := range ks {
+							out[k] = true
+						}
+						found = true
+					}
+					break
+				}
+				if len(pred.Preds) == 1 && len(pred.Instrs) <= 2 {
+					pred = pred.Preds[0]
+					continue
+				}
+				break
+			}
+			if !found {
+				return nil, false
+			}
+			continue
+		}
+		ks, ok := kindsOfCond(e, depth+1)
+		if !ok {
+			return nil, false
+		}
+		for k := range ks {
+			out[k] = true
+		}
+	}
+	return out, len(out) > 0
 }
 
 func kindSetString(m map[int64]bool) string {
@@ -282,8 +340,32 @@ func c09(c *Ctx) {
 				}
 				return false
 			}
-			okPtr := vals["Ptr"] != nil && fromOrigin(vals["Ptr"], "Ptr")
-			okFlag := vals["Flag"] != nil && fromOrigin(vals["Flag"], "Flag")
+			// the triple may also start as a whole copy of the original value's header, of which only the type word is
+			// overwritten afterwards
+			wholeFromOrigin := false
+			for _, ref := range *lit.Referrers() {
+				st, ok := ref.(*ssa.Store)
+				if !ok || st.Addr != ssa.Value(lit) {
+					continue
+				}
+				if ld, ok := st.Val.(*ssa.UnOp); ok && ld.Op == token.MUL {
+					b := ld.X
+					for k := 0; k < 4; k++ {
+						if cv, ok := b.(*ssa.Convert); ok {
+							b = cv.X
+						}
+					}
+					if a, ok := b.(*ssa.Alloc); ok {
+						for _, r2 := range *a.Referrers() {
+							if s2, ok := r2.(*ssa.Store); ok && s2.Addr == ssa.Value(a) && s2.Val == ssa.Value(cf.Params[0]) {
+								wholeFromOrigin = true
+							}
+						}
+					}
+				}
+			}
+			okPtr := (vals["Ptr"] != nil && fromOrigin(vals["Ptr"], "Ptr")) || (vals["Ptr"] == nil && wholeFromOrigin)
+			okFlag := (vals["Flag"] != nil && fromOrigin(vals["Flag"], "Flag")) || (vals["Flag"] == nil && wholeFromOrigin)
 			okTyp := vals["Typ"] != nil && !fromOrigin(vals["Typ"], "Typ") && dependsOn(vals["Typ"], func(x ssa.Value) bool { return x == ssa.Value(cf.Params[1]) })
 			if okPtr && okFlag && okTyp {
 				okShape = true
@@ -307,21 +389,86 @@ func c09(c *Ctx) {
 		r.Und("C09.R5", "arg.V2I", "", "exported function V2I not found")
 	} else {
 		found := false
+		// the zero test: a branch on a module predicate over the reflect.Value; the kinds that lead to it; on its true
+		// side the element is nil — stored explicitly, or left as the zero value of a freshly made result — and the
+		// boxed value is not stored
+		var valueStores []*ssa.Store
 		eachInstr(v2i, func(i ssa.Instruction) {
-			st, ok := i.(*ssa.Store)
-			if !ok || !isNilConst(st.Val) {
+			if st, ok := i.(*ssa.Store); ok {
+				if _, isIA := st.Addr.(*ssa.IndexAddr); isIA {
+					for _, a := range origins(st.Val) {
+						if cl, ok := a.V.(*ssa.Call); ok && calleeName(cl.Common()) == "(reflect.Value).Interface" {
+							valueStores = append(valueStores, st)
+						}
+					}
+				}
+			}
+		})
+		eachInstr(v2i, func(i ssa.Instruction) {
+			iff, ok := i.(*ssa.If)
+			if !ok {
 				return
 			}
-			if _, ok := st.Addr.(*ssa.IndexAddr); !ok {
+			cl, ok := iff.Cond.(*ssa.Call)
+			if !ok {
+				return
+			}
+			cal := staticCallee(cl.Common())
+			if cal == nil || relPkg(cal) != "arg" || len(cal.Params) != 1 || !strings.HasSuffix(cal.Params[0].Type().String(), "reflect.Value") || !isBool(cal.Signature.Results().At(0).Type()) {
 				return
 			}
 			found = true
-			ks := kindsInto(st.Block())
-			want := map[int64]bool{22: true, 20: true}
+			ks := kindsInto(iff.Block())
+			for _, g := range guardsAt(iff.Block()) {
+				if g.Pol {
+					for k := range kindPredicate(g.Cond) {
+						ks[k] = true
+					}
+				}
+			}
 			okK := len(ks) == 2 && ks[22] && ks[20]
-			_ = want
-			r.Check(okK, "C09.R5", "nil mapping in arg.V2I", p.Pos(posOf(st)), "zero Ptr/Interface map to untyped nil",
-				"V2I maps kinds "+kindSetString(ks)+" to untyped nil; the property requires exactly {Interface,Ptr} (a nil error result must compare equal to nil, other kinds must keep their typed zero)")
+			// from the true side, the boxed-value store is not reached in this iteration
+			stop := map[*ssa.BasicBlock]bool{}
+			for _, b := range v2i.Blocks {
+				if b != iff.Block() && b.Dominates(iff.Block()) {
+					stop[b] = true
+				}
+			}
+			seenB := map[*ssa.BasicBlock]bool{}
+			var reach func(b *ssa.BasicBlock)
+			reach = func(b *ssa.BasicBlock) {
+				if seenB[b] || stop[b] {
+					return
+				}
+				seenB[b] = true
+				for _, s := range b.Succs {
+					reach(s)
+				}
+			}
+			reach(iff.Block().Succs[0])
+			okSkip := len(valueStores) > 0
+			hasNil := false
+			for _, vs := range valueStores {
+				if seenB[vs.Block()] {
+					okSkip = false
+				}
+				if ia, ok := vs.Addr.(*ssa.IndexAddr); ok {
+					if _, isMk := resolveLocal(ia.X).(*ssa.MakeSlice); isMk {
+						hasNil = true // a fresh result: untouched elements are nil
+					}
+				}
+			}
+			for b := range seenB {
+				for _, ins := range b.Instrs {
+					if st, ok := ins.(*ssa.Store); ok && isNilConst(st.Val) {
+						if _, isIA := st.Addr.(*ssa.IndexAddr); isIA {
+							hasNil = true
+						}
+					}
+				}
+			}
+			r.Check(okK && okSkip && hasNil, "C09.R5", "nil mapping in arg.V2I", p.Pos(posOf(iff)), "zero Ptr/Interface map to untyped nil",
+				"V2I maps kinds "+kindSetString(ks)+" to untyped nil (or boxes the zero value anyway); the property requires exactly {Interface,Ptr} (a nil error result must compare equal to nil, other kinds must keep their typed zero)")
 		})
 		if !found {
 			r.Bad("C09.R5", "nil mapping in arg.V2I", p.Pos(v2i.Pos()), "V2I never maps a zero pointer/interface to untyped nil")
